@@ -43,12 +43,15 @@ PROPS = {
         "assumptions": ["device emits in reaction to writes only (causality)", "cuts never fall inside an escape sequence (harness transport delivers escape atoms whole)"],
     },
     "C02": {
+        "rx": True,
         "n": {"quick": 2500, "thorough": 150000},
         "cone": ["Bytes", "Regex", "Generated", "Netconf", "NetconfLemmas", "NcSession", "NcSessionLemmas", "NcSegLemmas"],
         "rule": "NetconfResponse.Record on raw bytes under recover(): well-formed stream = generated payloads (multi-byte UTF-8, '#', digits, "
                 "LF, ']]>' and rpc-error variants at chunk edges) x random partitions (incl. 1-byte chunks) x surrounding whitespace; malformed "
                 "stream = truncations, size mutations (negative/alpha/oversize/empty), dropped terminator, junk at marker positions, over-long "
-                "size headers, raw random over '#\\n0-9-+a<>' and a fixed boundary corpus; non-trivial = input longer than 8 bytes",
+                "size headers, raw random over '#\\n0-9-+a<>' and a fixed boundary corpus; non-trivial = input longer than 8 bytes. Plus n/40 (>= 40) whole sessions "
+                "through netconf.Driver (replies on time, chunkings that keep the message-id in one chunk, echoing or not, the reply sharing a read with the echo of "
+                "its request or the WHOLE exchange arriving in one read followed by silence, random read segmentations), replayed by the session model.",
         "level_text": "Theorems over the model of record1dot0/record1dot1Chunks/Record: the cursor-level transcription of the Go loop (every "
                       "index and slice a checked access) refines the functional decoder and never panics; every RFC 6242 encoding of any "
                       "chunk list decodes to exactly the trimmed payload; every listed malformation yields a parse error; an accepted result "
